@@ -48,9 +48,12 @@ theorem riem_driver_nameerror_only_in_vacuum (p : RiemDriverClass.P)
     (h : RiemDriverClass.outcome p = .raise "NameError") : RiemVacuum p := by
   simp only [epv_tree, Rest.ite_eq_raise_iff, Rest.ok_eq_raise, EPV.Out.raise.injEq, String.reduceEq,
     and_false, false_and, or_false, false_or, and_true, true_and] at h
-  have key : RiemDriverClass.c8 p → RiemVacuum p := fun h8 => by
-    simpa only [epv_cond, RiemVacuum] using h8
-  casesm* _ ∨ _, _ ∧ _ <;> exact key ‹_›
+  -- every path that ends in NameError carries the vacuum test among its conditions; it is found by what it
+  -- says (linear arithmetic over the normalised square roots), not by its number in the generated file
+  casesm* _ ∨ _, _ ∧ _ <;>
+    (simp only [epv_cond, not_le, not_lt] at *
+     unfold RiemVacuum
+     first | assumption | linarith | (ring_nf at *; linarith))
 
 /-- outside the vacuum regime the driver reaches the grid -/
 theorem riem_driver_reaches_grid (p : RiemDriverClass.P) (h : ¬ RiemVacuum p) :
